@@ -194,15 +194,20 @@ def generic(run, h, rng, proc):
         if t >= trials - 2:
             width = 0.125 if t == trials - 2 else 0.12
 
+        # the azimuth of the single-azimuth method and the azimuth set of RotDpp are any real numbers of degrees: also negative ones and
+        # ones beyond 180 (a direction and its back-azimuth give the same curve, a direction and its mirror image do not)
+        SA_AZ = (37.0, 200.0, -30.0, 290.0)[t % 4]
+        ROT_AZS = ((0.0, 45.0, 90.0, 135.0), (-90.0, -45.0, 0.0, 45.0), (200.0, 245.0, 290.0, 335.0))[t % 3]
+
         def mkst(kind, method=None, w=width, fft=None, pp=50.0):
             sm = dict(operator=op, bandwidth=bw, center_frequencies_in_hz=fcs.copy())
             kw = dict(smoothing=sm, window_type_and_width=["tukey", w], fft_settings=fft)
             if kind == "trad":
                 return h.HvsrTraditionalProcessingSettings(method_to_combine_horizontals=method, **kw)
             if kind == "sa":
-                return h.HvsrTraditionalSingleAzimuthProcessingSettings(azimuth_in_degrees=37.0, **kw)
+                return h.HvsrTraditionalSingleAzimuthProcessingSettings(azimuth_in_degrees=SA_AZ, **kw)
             if kind == "rot":
-                return h.HvsrTraditionalRotDppProcessingSettings(azimuths_in_degrees=[0.0, 45.0, 90.0, 135.0], ppth_percentile_for_rotdpp_computation=pp, **kw)
+                return h.HvsrTraditionalRotDppProcessingSettings(azimuths_in_degrees=list(ROT_AZS), ppth_percentile_for_rotdpp_computation=pp, **kw)
             if kind == "df":
                 return h.HvsrDiffuseFieldProcessingSettings(**kw)
         kinds = [("trad", m) for m in NAMES] + [("sa", None), ("rot", None), ("df", None)]
@@ -257,10 +262,10 @@ def generic(run, h, rng, proc):
                 closed = {"arithmetic_mean": (A + B) / 2, "squared_average": math.sqrt((A * A + B * B) / 2), "quadratic_mean": math.sqrt((A * A + B * B) / 2),
                           "root_mean_square": math.sqrt((A * A + B * B) / 2), "effective_amplitude_spectrum": math.sqrt((A * A + B * B) / 2),
                           "geometric_mean": math.sqrt(A * B), "total_horizontal_energy": math.sqrt(A * A + B * B), "vector_summation": math.sqrt(A * A + B * B),
-                          "maximum_horizontal_value": max(A, B), "sa": abs(A * math.cos(math.radians(37.0)) + B * math.sin(math.radians(37.0))),
+                          "maximum_horizontal_value": max(A, B), "sa": abs(A * math.cos(math.radians(SA_AZ)) + B * math.sin(math.radians(SA_AZ))),
                           "df": math.sqrt(A * A + B * B)}.get(label)
                 if closed is None:    # RotD50 over 0/45/90/135: median of |A cos a + B sin a| (numpy percentile of 4 values interpolates)
-                    vals = sorted(abs(A * math.cos(math.radians(a)) + B * math.sin(math.radians(a))) for a in (0.0, 45.0, 90.0, 135.0))
+                    vals = sorted(abs(A * math.cos(math.radians(a)) + B * math.sin(math.radians(a))) for a in ROT_AZS)
                     closed = (vals[1] + vals[2]) / 2
                 if not np.allclose(flat, closed / C, rtol=1e-9):
                     run.violation(f"proportional:{label}", f"{label} with {op}: components {A}s, {B}s, {C}s give {flat.tolist()[:3]}..., closed form {closed / C}", rep)
@@ -273,7 +278,7 @@ def generic(run, h, rng, proc):
                         flat2 = np.atleast_2d(proc([recq], mkst(kind, method, pp=pp)).amplitude)[0]
                         closed2 = closed
                         if kind == "rot":
-                            closed2 = float(np.percentile([abs(A * math.cos(math.radians(a)) + B * math.sin(math.radians(a))) for a in (0.0, 45.0, 90.0, 135.0)], pp))
+                            closed2 = float(np.percentile([abs(A * math.cos(math.radians(a)) + B * math.sin(math.radians(a))) for a in ROT_AZS], pp))
                         if not np.allclose(flat2, closed2 / C2, rtol=1e-9):
                             run.violation(f"proportional:{label}", f"{label} (percentile {pp}) with {op}: components {A}s, {B}s, {C2}s give {flat2.tolist()[:3]}..., "
                                           f"closed form {closed2 / C2}", rep)
